@@ -3,20 +3,27 @@
    merge_arrays.  Definitions only; proofs live in Proofs/DesurveyProofs.v.
 
    Depths and coordinates are rationals; the trigonometry (deviation_x/y/z of an (azimuth, dip) pair) is the Section
-   variable [dir].  The model follows the REPAIRED compute_deviation (fixes/C18-divide-uninitialised.patch):
-   np.divide(..., out=zeros, where=lengths != 0), so a zero-length leg has ddl = 0 and deviation = dl_in.  The
-   unrepaired code leaves that entry uninitialised (any float, NaN included): no functional model exists for it. *)
+   variable [dir].  The model follows the REPAIRED compute_deviation (fixes/C18-divide-uninitialised.patch): the
+   deviation of a leg is (dl_in + dl_out) / 2 for every leg.  The unrepaired code divided by the leg length with
+   np.divide(where=lengths != 0) and no out=, which leaves the entry of a zero-length leg uninitialised ([dev_old]). *)
 From GV Require Import Prelude.Base Model.GridIndex.
 From Coq Require Import QArith Qround.
 Close Scope Q_scope.
 
 Definition Qltb (a b : Q) : bool := negb (Qle_bool b a).
 
-(* component-wise: dl_in + lengths * ddl / 2.0  with  ddl = (dl_out - dl_in) / lengths  where lengths != 0, else 0 *)
-Definition dev1 (din dout len : Q) : Q :=
-  (din + len * (if Qeq_bool len 0 then 0 else (dout - din) / len) / 2)%Q.
-Definition dev (din dout : V3) (len : Q) : V3 :=
-  let '(a, b, c) := din in let '(p, q, r) := dout in (dev1 a p len, dev1 b q len, dev1 c r len).
+(* repaired compute_deviation (fixes/C18-divide-uninitialised.patch), component-wise: (dl_in + dl_out) / 2.0 *)
+Definition dev (din dout : V3) : V3 :=
+  let '(a, b, c) := din in let '(p, q, r) := dout in (((a + p) / 2)%Q, ((b + q) / 2)%Q, ((c + r) / 2)%Q).
+
+(* the code before the repair, component-wise: dl_in + lengths * ddl / 2.0 with
+   ddl = np.divide(dl_out - dl_in, lengths, where=lengths != 0): where lengths == 0 the entry of ddl is whatever the
+   freshly allocated output array contains.  [g] stands for that content when it happens to be a finite number
+   (a NaN or infinity there turns every location into NaN and has no counterpart in Q). *)
+Definition dev1_old (g din dout len : Q) : Q :=
+  (din + len * (if Qeq_bool len 0 then g else (dout - din) / len) / 2)%Q.
+Definition dev_old (g : Q) (din dout : V3) (len : Q) : V3 :=
+  let '(a, b, c) := din in let '(p, q, r) := dout in (dev1_old g a p len, dev1_old g b q len, dev1_old g c r len).
 
 Definition vmean (a b : V3) : V3 := vscale (1 # 2)%Q (vadd a b).
 
@@ -65,7 +72,7 @@ Section Desurvey.
     | (t0, a0) :: r =>
         match r with
         | [] => []
-        | (t1, a1) :: _ => ((t1 - t0)%Q, dev (dir a0) (dir a1) (t1 - t0)%Q) :: legs r
+        | (t1, a1) :: _ => ((t1 - t0)%Q, dev (dir a0) (dir a1)) :: legs r
         end
     end.
 
